@@ -108,10 +108,12 @@ def precond(rng, n, cplx, Are):
     return re, im, k
 
 
-def _controller(rng, ty, n, r0, rinf0, e0, estar, big):
-    """controller config with tolerances scaled to the problem (all dyadic)"""
+def _controller(rng, ty, n, r0, rinf0, e0, estar, big, allow_none=True):
+    """controller config with tolerances scaled to the problem (all dyadic).
+    `iteration_limit=None` only where the criterion is reachable in floating point (else the real run would only stop
+    when the energies underflow, after thousands of iterations)"""
     level = rng.choice([1, 1, 1, 2, 3])
-    want_none = (not big) and rng.random() < 0.2
+    want_none = (not big) and allow_none and rng.random() < 0.2
     if big:
         limit = rng.randint(3, 14)
     elif rng.random() < 0.65:
@@ -167,8 +169,9 @@ def cg_case(rng, nmax=8, nmin=1, ty=None):
     g0 = A @ x0 - b
     xs = np.linalg.solve(A, b)
     e = lambda x: 0.5 * float(np.vdot(x, A @ x).real) - float(np.vdot(b, x).real)
+    # b=None: the minimum energy is 0, relative criteria (DeltaEnergy, GradInfNorm) are never met -> always a limit
     case["ctrl"] = _controller(rng, ty, n, float(np.linalg.norm(g0)), float(np.max(np.abs(g0))) if n else 0.0,
-                               e(x0), e(xs), big)
+                               e(x0), e(xs), big, allow_none=not bnone)
     case["nreset"] = rng.choice([1, 2, 3, 4, 5, 5, 20, 20, 0])
     return case
 
